@@ -94,11 +94,17 @@ func NewGen(seed int64, prop string, run int, thorough bool) *Gen {
 	rs := runSeed(seed, prop, run)
 	rng := rand.New(rand.NewSource(rs))
 	prof := profileFor(prop)
-	g := &Gen{rng: rng, prof: prof, thorough: thorough}
+	g := &Gen{rng: rng, prof: prof, thorough: thorough, longLivedRefs: map[string]bool{}}
 
 	cfg := &Config{Property: prop, Seed: seed, Run: run}
 	nOwners := 2 + g.pick(2)
+	// "stretch" runs (swarm dimension): more parties, longer timeouts, larger amounts, long-lived contexts — the scale
+	// at which fixed-size buffers, narrow integer conversions and hard-coded limits start to matter
+	g.stretch = g.chance(0.15) || (thorough && g.chance(0.2))
 	nProv := 2 + g.pick(3)
+	if g.stretch {
+		nProv = 5 + g.pick(6)
+	}
 	nCons := 2 + g.pick(2)
 	idx := 0
 	for i := 0; i < nOwners; i++ {
@@ -121,6 +127,9 @@ func NewGen(seed int64, prop string, run int, thorough bool) *Gen {
 	cfg.Balances = make([]int64, idx)
 	for i := range cfg.Balances {
 		cfg.Balances[i] = 1_000_000_000
+		if g.stretch {
+			cfg.Balances[i] = 500_000_000_000_000_000 // 5e17: room for amounts above 2^53
+		}
 	}
 	cfg.Balances[g.poor] = int64(g.pick(40))
 	if g.chance(0.3) {
@@ -140,6 +149,9 @@ func NewGen(seed int64, prop string, run int, thorough bool) *Gen {
 	}
 	cfg.GenesisTime = 1_600_000_000 + int64(g.pick(1000))
 	cfg.MaxRequestTimeout = pickI64(g, []int64{1, 2, 3, 5, 5, 8, 12, 100})
+	if g.stretch {
+		cfg.MaxRequestTimeout = pickI64(g, []int64{40, 100, 100})
+	}
 	cfg.MinDepositMultiple = pickI64(g, []int64{1, 2, 10, 200, 1000})
 	cfg.MinDeposit = pickI64(g, []int64{1, 10, 6000})
 	cfg.ServiceFeeTax = pickStr(g, []string{"0", "0.01", "0.1", "0.1", "0.5", "0.999999"})
@@ -224,7 +236,23 @@ func NewGen(seed int64, prop string, run int, thorough bool) *Gen {
 		br = prof.BlocksThorough
 	}
 	g.nBlocks = br[0] + g.pick(br[1]-br[0]+1)
+	if g.stretch {
+		g.nBlocks = g.nBlocks*3/2 + 20
+		if (thorough && g.chance(0.3)) || g.chance(0.08) {
+			g.nBlocks = 290 + g.pick(120) // long enough for the batch counter of an every-block context to pass 256
+		}
+	}
 	cfg.DrainBlocks = 8
+	if g.stretch {
+		cfg.DrainBlocks = 34
+	}
+	if g.nBlocks >= 290 {
+		// the marathon runs: nothing may disable the every-block context's provider on the way to batch 256+
+		cfg.SlashFraction = pickStr(g, []string{"0", "0.001"})
+		delete(g.faults, "params")
+		delete(g.faults, "drop")
+		delete(g.faults, "delay")
+	}
 	if cfg.MaxRequestTimeout <= 12 {
 		cfg.DrainBlocks = int(cfg.MaxRequestTimeout) + 3
 	}
